@@ -45,6 +45,8 @@ def frameStep (t : Tokens) (impl : Option String) : StepOut :=
         let it := tokenize line
         (if kvGet it "msgs" == some (dumpMsgs ms) then [] else ["C09 serve: the handler saw different messages than the frames present in the stream"]) ++
         (if kvGet it "written" == some (toHex written) then [] else ["C09 serve: replies are not exactly one frame of the request's type each"]) ++
-        (if kvGet it "retained" == kvGet it "msgs" then [] else ["C04 serve: a message already handed to the handler was overwritten by a later one (shared buffer)"])
+        (if kvGet it "retained" == kvGet it "msgs" then [] else
+          ["C04 serve: a message already handed to the handler was overwritten by a later one (shared buffer)",
+           "C09 serve: a message that was delivered to the handler did not stay intact when later messages of the stream were read"])
     { model := model, specFails := fails }
   | _ => { model := "bad-op" }
